@@ -597,6 +597,17 @@ def step (d : DState) (line : String) : IO DState := do
     | some v => out s!"pname ok {v}"
     | none => out "pname err"
     return d
+  | "encf" :: room :: rec =>
+    -- a sink with room for `room` bytes: the encoder succeeds iff the whole record fits
+    match room.toNat?, parseRecord rec with
+    | some room, some r =>
+      if (encRecord r).length ≤ room then out s!"enc {hexOfBytes (encRecord r)}" else out "enc err"
+    | _, _ => out "bad-op"
+    return d
+  | ["openalt"] =>
+    -- the same directory under another spelling: refused while it is owned
+    if d.sys.locked then out "open err locked" else out "open unowned"
+    return d
   | "encw" :: _ :: rec =>
     -- the encoding does not depend on how the writer accepts the bytes
     match parseRecord rec with
